@@ -219,4 +219,22 @@ META["C07"] = {
     "assumptions": ["signatures bounded to <= 3 parameters, nesting depth <= 2"],
 }
 
+META["C08"] = {
+    "level": "exploration",
+    "level_text": "Bounded contract check on the real type follower: class models generated per run "
+    "(inheritance, Generic with 1 and 2 parameters, generic / non-generic Iterable subclasses, an "
+    "Iterable whose element type is not its own parameter, a registered collection class, methods "
+    "with and without return annotations) x ~100 well-typed expressions whose type is known by "
+    "construction (method chains, First/Count/len/subscript, nested Select/SelectMany/Where with "
+    "re-used parameter names, arithmetic promotion, comparison, and/or/not, conditionals, dict and "
+    "tuple fields) plus 16 stream-level chains and the non-boolean Where refusal. The reflection "
+    "code in util_types depends on typing internals that the engine does not model (DESIGN §5).",
+    "level_note": "Bounded stand-in; nothing counted as proved. CPython's typing module is the "
+    "unmodelled external.",
+    "technique": "bounded contract check of the type-following contract on generated class models (labelled stand-in; typing reflection is outside the deductive engine)",
+    "p_keys": False,
+    "explanation": "bounded only",
+    "assumptions": ["class models and expressions bounded as stated"],
+}
+
 NOT_APPLICABLE = {}
